@@ -61,7 +61,7 @@ Print Assumptions C10_history.
 
 Theorem C10_singleton :
   forall (I : instance) (w : wld) (k : okind),
-    is_singleton k = true -> existsb (kind_eqb k) (subscribed_kinds w) = true ->
+    is_singleton k = true -> existsb (is_instance k) (subscribed_kinds w) = true ->
     new_observer I k w = (w, inr EValidation).
 Proof. exact singleton_not_subscribed_twice. Qed.
 Print Assumptions C10_singleton.
@@ -70,10 +70,10 @@ Theorem C10_create_or_get :
   forall (I : instance) (w : wld) (k : okind) (al : option (list nat)),
     (forall i, find_sub (objs w) k al (subs w) = Some i ->
        create_or_get I k al w = (w, inl i) /\ In i (subs w) /\ cond_ok al i = true /\
-       exists o, nth_error (objs w) i = Some o /\ kind_eqb k (kind_of o) = true) /\
+       exists o, nth_error (objs w) i = Some o /\ is_instance k (kind_of o) = true) /\
     (find_sub (objs w) k al (subs w) = None ->
        (forall i o, In i (subs w) -> nth_error (objs w) i = Some o ->
-                    kind_eqb k (kind_of o) && cond_ok al i = false) /\
+                    is_instance k (kind_of o) && cond_ok al i = false) /\
        create_or_get I k al w = new_observer I k w).
 Proof.
   intros I w k al. split.
@@ -83,16 +83,48 @@ Proof.
 Qed.
 Print Assumptions C10_create_or_get.
 
+(** What "matches" means ([isinstance]): every object is an instance of its own
+    class, an object of a subclass is an instance of the base class, an object
+    of the base class is NOT an instance of the subclass. With the two theorems
+    above: create-or-get of a base class returns an already subscribed object
+    of a subclass, and a singleton base class cannot be constructed while an
+    object of its subclass is subscribed. *)
+Theorem C10_instance_of :
+  forall (k : okind) (s : bool),
+    is_instance k k = true /\
+    is_instance (KRec s false) (KRec s true) = true /\
+    is_instance (KRec s true) (KRec s false) = false.
+Proof.
+  intros k s. split; [|split].
+  - destruct k as [| | | |[|] [|]|]; reflexivity.
+  - destruct s; reflexivity.
+  - destruct s; reflexivity.
+Qed.
+Print Assumptions C10_instance_of.
+
 Theorem C10_constructors_keep_nodup :
   forall (I : instance) (k : okind) (w : wld), SubsOK w -> SubsOK (fst (new_observer I k w)).
 Proof. exact new_observer_SubsOK. Qed.
 Print Assumptions C10_constructors_keep_nodup.
 
 Definition ex_I : instance := [[mkop [0%nat] 3; mkop [1%nat] 2]; [mkop [1%nat] 4]].
-Definition ex_w : wld := mkw (init_d ex_I) empty_cache [] [OHist []; ORec false []; OMakespan [] 0] [2%nat; 0%nat].
+Definition ex_w : wld := mkw (init_d ex_I) empty_cache [] [OHist []; ORec false false []; OMakespan [] 0] [2%nat; 0%nat].
 Example C10_nonvacuous :
   objs (step_req obs o_update ex_I ex_w (mkreq 0 0 None)) =
-    [OHist [mksop 0 0 0 0]; ORec false []; OMakespan [-3] 3] /\
+    [OHist [mksop 0 0 0 0]; ORec false false []; OMakespan [-3] 3] /\
   find_sub (objs ex_w) KHist None (subs ex_w) = Some 0%nat /\
-  find_sub (objs ex_w) (KRec false) None (subs ex_w) = None.
+  find_sub (objs ex_w) (KRec false false) None (subs ex_w) = None.
 Proof. vm_compute. repeat split; reflexivity. Qed.
+
+(** Subclasses: an object of the subclass of the non-singleton recorder is what
+    create-or-get of the recorder returns; the singleton recorder cannot be
+    constructed while an object of its subclass is subscribed, the other way
+    round it can. *)
+Definition ex_w2 : wld :=
+  mkw (init_d ex_I) empty_cache [] [ORec false true []; ORec true true []; ORec true false []] [0%nat; 1%nat].
+Example C10_subclass_nonvacuous :
+  create_or_get ex_I (KRec false false) None ex_w2 = (ex_w2, inl 0%nat) /\
+  new_observer ex_I (KRec true false) ex_w2 = (ex_w2, inr EValidation) /\
+  snd (new_observer ex_I (KRec true true) (mkw (init_d ex_I) empty_cache [] [ORec true false []] [0%nat])) = inl 1%nat.
+Proof. vm_compute. repeat split; reflexivity. Qed.
+
